@@ -243,6 +243,11 @@ def main(argv=None):
     if getattr(mod, "EXHAUSTIVE_PARTS", None):
         cov["exhaustive_parts"] = mod.EXHAUSTIVE_PARTS
     hits = rec.extra.pop("anchor_lines_hit", None)
+    child = rec.extra.pop("anchor_lines_hit_children", None)
+    if child:
+        hits = dict(hits or {})
+        for f, ls in child.items():
+            hits[f] = sorted(set(hits.get(f, [])) | set(ls))
     if hits is not None:
         from . import covmon
 
